@@ -46,6 +46,10 @@ def features(case, obs):
                 hit = True
     f["foreign_terminator_hit_paused"] = hit
     f["suspend_requested"] = any(i["inj"]["do"] == "suspend" for i in obs.injected)
+    # a status fault plus a wait(..., watch=[...]) executed by the plan (F24)
+    f["status_fault_and_watching_wait"] = any(x.get("kind") == "status_fail" for x in (case.get("faults") or [])) and any(
+        h["msg"].command == "wait" and h["msg"].kwargs.get("watch") for h in obs.hook
+    )
     return f
 
 
